@@ -1,8 +1,8 @@
-(* SkcLemmas (C03): completeness of Groth's shuffle-of-known-content argument (non-interactive form), both settings of the
+(* SkcProveLemmas (C03): completeness of Groth's shuffle-of-known-content argument (non-interactive form), both settings of the
    verifier's `optimizations` flag: Pedersen commitments are homomorphic, the verifier's recursion satisfies
    F_i = e a_i + Delta_i, and prod (m_i - x) does not depend on the order. *)
 From Coq Require Import ZArith Znumtheory Lia List Bool ZifyBool Permutation.
-From LT Require Import Zbase gen_Consts SigmaPrim SigmaArith PedersenModel PedersenLemmas SkcModel.
+From LT Require Import Zbase gen_Consts SigmaPrim SigmaArith PedersenModel PedersenLemmas SkcProveModel.
 Import ListNotations.
 Local Open Scope Z_scope.
 
